@@ -849,6 +849,7 @@ impl LineBuffer {
     /// Transpose two words
     pub fn transpose_words<C: ChangeListener>(&mut self, n: RepeatCount, cl: &mut C) -> bool {
         let word_def = Word::Emacs;
+        let pos = self.pos;
         self.move_to_next_word(At::AfterEnd, word_def, n);
         let w2_end = self.pos;
         self.move_to_prev_word(word_def, 1);
@@ -858,6 +859,8 @@ impl LineBuffer {
         self.move_to_next_word(At::AfterEnd, word_def, 1);
         let w1_end = self.pos;
         if w1_beg == w2_beg || w2_beg < w1_end {
+            // nothing to transpose: leave the cursor where it was (the caller does not redraw)
+            self.pos = pos;
             return false;
         }
 
